@@ -30,7 +30,8 @@ ASSUMPTIONS = [
     "a process sees one immutable source tree version; edits become visible through a restart (or an explicit in-process mutation)",
     "values are compared by canonical repr and type",
 ]
-PROBES = ["cache_hit_after_edit", "cache_hit_after_restart", "revert", "all_cached", "stale_candidate", "second_store"]
+PROBES = ["cache_hit_after_edit", "revert", "all_cached", "location_evaluated:package", "location_evaluated:main",
+          "location_evaluated:notebook"]
 
 PROFILE = {
     "feat": gen.swarm_feat,
@@ -38,6 +39,7 @@ PROFILE = {
     "n": (3, 10),
     "p_restart": 0.75,
     "p_mutate": 0.04,
+    "locations": ["package", "package", "package", "main", "notebook"],
 }
 
 
@@ -71,6 +73,9 @@ def finish(w, prefixes):
     for e in w.log:
         pass
     probes = dict(w.probes)
+    probes["location:" + w.case.get("location", "package")] = 1
+    if any(o["op"] == "eval" and o["res"][0] == "ok" for o in w.obs):
+        probes["location_evaluated:" + w.case.get("location", "package")] = 1
     if hits:
         probes["cache_hit_after_edit"] = hits
     return {"violations": viol, "probes": probes, "faults": {}, "nontrivial": hits > 0, "log": w.log,
